@@ -25,7 +25,7 @@ def g1_pairs(tier):
         # identity modes rotate over the lattice: ascending numbers, descending numbers (file order need not be sorted order),
         # same number told apart by insertion codes only (ascending / descending)
         k += 1
-        yield dict(g=1, l1=l1, l2=l2, r=r, th=th, ph=ph, flip=flip, rise=rise, tilt=tilt, idmode=k % 4, namemode=(k // 4) % 3)
+        yield dict(g=1, l1=l1, l2=l2, r=r, th=th, ph=ph, flip=flip, rise=rise, tilt=tilt, idmode=k % 4, namemode=(k // 4) % 3, thinmode=[0, 0, 0, 1, 0, 2][(k // 12) % 6])
 
 
 def g1_stack(tier):
@@ -42,11 +42,23 @@ def g1_stack(tier):
         if lat == 0.0 and th != ths[0]:
             continue
         kk += 1
-        yield dict(g=1, l1=l1, l2=l2, r=lat, th=th, ph=tw, flip=flip, rise=sign * rise, tilt=tilt, idmode=kk % 4, namemode=(kk // 4) % 3)
+        yield dict(g=1, l1=l1, l2=l2, r=lat, th=th, ph=tw, flip=flip, rise=sign * rise, tilt=tilt, idmode=kk % 4, namemode=(kk // 4) % 3, thinmode=[0, 0, 0, 1, 0, 2][(kk // 12) % 6])
 
 
 # residue names of modified nucleotides whose one-letter code (as given by the sequence records of a file) is the parent base
 MODIFIED_NAMES = {"A": "1MA", "G": "7MG", "C": "5MC", "U": "H2U", "T": "5BU"}
+
+
+_BASE_AND_C1 = {"N1", "C2", "N2", "O2", "N3", "C4", "N4", "O4", "C5", "C6", "N6", "O6", "N7", "C8", "N9", "C7", "C1'"}
+
+
+def _thin(atoms, case, k):
+    """Thin mode 1: the second residue keeps its base and C1' only (no phosphate, no ribose); mode 2: every residue. Such a residue still has
+    everything the definitions of a base pair and of a stacking refer to."""
+    mode = case.get("thinmode", 0)
+    if mode == 2 or (mode == 1 and k >= 1):
+        return [(n, p) for n, p in atoms if n in _BASE_AND_C1]
+    return atoms
 
 
 def _rn(letter, case, k):
@@ -54,19 +66,40 @@ def _rn(letter, case, k):
     return MODIFIED_NAMES[letter] if case.get("namemode") and (k + case.get("namemode")) % 2 == 0 else letter
 
 
+def specs_of(case):
+    """Residue specifications of a g=1 lattice case (used to assemble multi-model structures)."""
+    (n1, i1), (n2, i2) = [((1, None), (2, None)), ((7, None), (3, None)), ((5, None), (5, "A")), ((5, "B"), (5, "A"))][case.get("idmode", 0)]
+    return [("A", n1, i1, _rn(case["l1"], case, 0), case["l1"], _thin(enum3d.origin(case["l1"]), case, 0)),
+            ("A", n2, i2, _rn(case["l2"], case, 1), case["l2"], _thin(enum3d.place(case["l2"], case["r"], case["th"], case["ph"], case["flip"], case.get("rise", 0.0), case.get("tilt", 0.0)), case, 1))]
+
+
+def two_model_structure(case):
+    """One Structure3D object holding two models with the same residue identities: model 1 = case['m1'], model 2 = case['m2'] (both g=1 lattice cases)."""
+    from rnapolis.tertiary import Structure3D
+
+    return Structure3D(ac.build_residues(specs_of(case["m1"]), 1) + ac.build_residues(specs_of(dict(case["m2"], idmode=case["m1"].get("idmode", 0))), 2))
+
+
+def two_model_cases(source, stride, offset):
+    lst = [c for k, c in enumerate(source) if k % stride == 0]
+    for a, b in zip(lst, lst[offset:] + lst[:offset]):
+        if (a["l1"], a["l2"]) == (b["l1"], b["l2"]):
+            yield dict(g=4, m1=a, m2=b)
+
+
 def structure_of(case):
     if case["g"] == 1:
         (n1, i1), (n2, i2) = [((1, None), (2, None)), ((7, None), (3, None)), ((5, None), (5, "A")), ((5, "B"), (5, "A"))][case.get("idmode", 0)]
-        specs = [("A", n1, i1, _rn(case["l1"], case, 0), case["l1"], enum3d.origin(case["l1"])),
-                 ("A", n2, i2, _rn(case["l2"], case, 1), case["l2"], enum3d.place(case["l2"], case["r"], case["th"], case["ph"], case["flip"], case.get("rise", 0.0), case.get("tilt", 0.0)))]
+        specs = [("A", n1, i1, _rn(case["l1"], case, 0), case["l1"], _thin(enum3d.origin(case["l1"]), case, 0)),
+                 ("A", n2, i2, _rn(case["l2"], case, 1), case["l2"], _thin(enum3d.place(case["l2"], case["r"], case["th"], case["ph"], case["flip"], case.get("rise", 0.0), case.get("tilt", 0.0)), case, 1))]
         return ac.build_structure(specs)
     if case["g"] == 2:
         c = case["center"]
         ids = case.get("ids") or [("A", 1), ("A", 2), ("B", 3)]
         ids = [list(x) + [None] * (3 - len(x)) for x in ids]
-        specs = [(ids[0][0], ids[0][1], ids[0][2], _rn(c, case, 0), c, enum3d.origin(c))]
+        specs = [(ids[0][0], ids[0][1], ids[0][2], _rn(c, case, 0), c, _thin(enum3d.origin(c), case, 0))]
         for k, p in enumerate(case["partners"]):
-            specs.append((ids[1 + k][0], ids[1 + k][1], ids[1 + k][2], _rn(p["l2"], case, 1 + k), p["l2"], enum3d.place(p["l2"], p["r"], p["th"], p["ph"], p["flip"], p.get("rise", 0.0), p.get("tilt", 0.0))))
+            specs.append((ids[1 + k][0], ids[1 + k][1], ids[1 + k][2], _rn(p["l2"], case, 1 + k), p["l2"], _thin(enum3d.place(p["l2"], p["r"], p["th"], p["ph"], p["flip"], p.get("rise", 0.0), p.get("tilt", 0.0)), case, 1 + k)))
         return ac.build_structure(specs)
     raise KeyError(case)
 
@@ -94,7 +127,7 @@ def g2(tier):
             pb = {k: b[k] for k in ("l2", "r", "th", "ph", "flip")}
             # listing order vs identity order: ascending, central residue last-in-order, partners swapped / other chain first
             ids = [[("A", 1), ("A", 2), ("B", 3)], [("B", 9), ("A", 2), ("A", 5)], [("A", 5), ("B", 1), ("A", 2)], [("A", 4, "A"), ("A", 4), ("A", 4, "C")]][len(cases) % 4]
-            cases.append(dict(g=2, center=c, edge=edge, partners=[pa, pb], ids=[list(x) for x in ids], namemode=(len(cases) // 4) % 3))
+            cases.append(dict(g=2, center=c, edge=edge, partners=[pa, pb], ids=[list(x) for x in ids], namemode=(len(cases) // 4) % 3, thinmode=[0, 0, 0, 1, 0, 2][(len(cases) // 12) % 6]))
     _g2_cache[tier] = cases
     return cases
 
